@@ -340,9 +340,8 @@ func stateCodecs() []*codec {
 			return nil, errNoJSON // JSON carries the arguments as items, the binary form as bytes
 		}
 		for _, it := range a.Stack {
-			switch it.(type) {
-			case *stackitem.Interop, *stackitem.Pointer:
-				return nil, errNoJSON // not restorable from JSON by design
+			if !restorableFromJSON(it, 0) {
+				return nil, errNoJSON // interop items, pointers and the protected form's marker of an unserialisable item (nil) are not restorable from JSON by design
 			}
 		}
 		if a.VMState != vmstate.Halt && a.VMState != vmstate.Fault {
@@ -742,3 +741,33 @@ func manifestCodecs() []*codec {
 }
 
 var _ = fmt.Sprint
+
+// restorableFromJSON: no Interop, Pointer or nil (unserialisable marker) anywhere in the item.
+func restorableFromJSON(it stackitem.Item, depth int) bool {
+	if depth > 64 {
+		return false
+	}
+	switch t := it.(type) {
+	case nil, *stackitem.Interop, *stackitem.Pointer:
+		return false
+	case *stackitem.Array:
+		for _, e := range t.Value().([]stackitem.Item) {
+			if !restorableFromJSON(e, depth+1) {
+				return false
+			}
+		}
+	case *stackitem.Struct:
+		for _, e := range t.Value().([]stackitem.Item) {
+			if !restorableFromJSON(e, depth+1) {
+				return false
+			}
+		}
+	case *stackitem.Map:
+		for _, e := range t.Value().([]stackitem.MapElement) {
+			if !restorableFromJSON(e.Key, depth+1) || !restorableFromJSON(e.Value, depth+1) {
+				return false
+			}
+		}
+	}
+	return true
+}
